@@ -951,6 +951,19 @@ where
         + Send
         + Sync,
 {
+    /// Verification hook: one incoming transfer frame through the private `on_incoming_transfer`
+    #[cfg(fe2o3_amqp_verif)]
+    pub(crate) async fn verif_on_incoming_transfer<T>(
+        &mut self,
+        transfer: Transfer,
+        payload: Payload,
+    ) -> Result<Option<Delivery<T>>, RecvError>
+    where
+        for<'de> T: FromBody<'de> + Send,
+    {
+        self.on_incoming_transfer(transfer, payload).await
+    }
+
     pub(crate) async fn recv<T>(&mut self) -> Result<Delivery<T>, RecvError>
     where
         for<'de> T: FromBody<'de> + Send,
